@@ -30,39 +30,52 @@ def _func_of(m, node):
     return (cls + "." if cls else "") + ".".join(reversed(names))
 
 
+def _is_index_store(n):
+    if isinstance(n, (ast.Assign, ast.AugAssign)):
+        tgts = n.targets if isinstance(n, ast.Assign) else [n.target]
+        return any(isinstance(t, ast.Subscript) and isinstance(t.slice, ast.Constant) and t.slice.value == "central_index" for t in tgts)
+    if isinstance(n, ast.Call):
+        if any(k.arg == "central_index" for k in n.keywords):
+            return True
+        if src(n.func).endswith("set_node_attributes") and any(isinstance(a, ast.Constant) and a.value == "central_index" for a in n.args):
+            return True
+    return False
+
+
 def index_writers(ctx, repo: Repo, pid: str):
-    """central_index is written only by Polytope._end_of_divison, with value current_max_ci + i for the nodes of the current level"""
+    """central_index is written only on the path of Polytope._end_of_divison (that method or private steps called from nowhere else);
+    returns the spliced view of _end_of_divison (helpers inlined) for the assignment rule"""
+    from .astutil import helper_closure, splice_self_calls
+    from .model import set_parents
     m = repo.module(PO)
-    writers = []
-    for n in ast.walk(m.tree):
-        if isinstance(n, (ast.Assign, ast.AugAssign)):
-            tgts = n.targets if isinstance(n, ast.Assign) else [n.target]
-            for t in tgts:
-                if isinstance(t, ast.Subscript) and isinstance(t.slice, ast.Constant) and t.slice.value == "central_index":
-                    writers.append((n, _func_of(m, n)))
-        if isinstance(n, ast.Call):
-            if any(k.arg == "central_index" for k in n.keywords):
-                writers.append((n, _func_of(m, n)))
-            fn = src(n.func)
-            if fn.endswith("set_node_attributes") and any(isinstance(a, ast.Constant) and a.value == "central_index" for a in n.args):
-                writers.append((n, _func_of(m, n)))
+    ci = repo.cls(PO, "Polytope")
+    fi = ci.methods.get("_end_of_divison")
+    if fi is None:
+        raise AnalysisError("anchor vanished: Polytope._end_of_divison")
+    closure = {f"Polytope.{x}" for x in helper_closure(ci, {"_end_of_divison"})}
+    writers = [(n, _func_of(m, n)) for n in ast.walk(m.tree) if _is_index_store(n)]
     ctx.instance("OWN", max(1, len(writers)))
     where = f"{m.relpath}:Polytope._end_of_divison"
-    bad = [w for w in writers if w[1] != "Polytope._end_of_divison"]
     if not writers:
         ctx.inconclusive("OWN", f"{pid}.index.writers", "no assignment of permanent indices (central_index) found", where)
         return None
+    bad = [w for w in writers if w[1] not in closure]
     for n, fn in bad:
         ctx.violate("OWN", f"{pid}.index.writers", "a second writer of the permanent node index exists: indices assigned at an earlier level can "
                     "change after further subdivision (prefix stability / index permanence lost)", f"{m.relpath}:{fn}", norm_stmt(n)[:200],
-                    witness=f"central_index written in {fn}; the only legitimate writer is Polytope._end_of_divison")
-    good = [w for w in writers if w[1] == "Polytope._end_of_divison"]
+                    witness=f"central_index written in {fn}; the only legitimate writer is Polytope._end_of_divison (and private steps called "
+                            "only from it)")
     if not bad:
-        ctx.ok("OWN", f"{pid}.index.writers", f"the permanent index is written only in Polytope._end_of_divison ({len(good)} store)", where)
-    return good[0][0] if good else None
+        ctx.ok("OWN", f"{pid}.index.writers", "the permanent index is written only on the path of Polytope._end_of_divison "
+               f"({len(writers)} store, in {sorted({w[1] for w in writers})})", where)
+    view = splice_self_calls(ci, fi.node)
+    set_parents(view)
+    stores = [n for n in ast.walk(view) if _is_index_store(n) and isinstance(n, ast.Assign)]
+    return (view, stores[0]) if stores else None
 
 
 def index_assignment(ctx, repo: Repo, pid: str, store):
+    from .astutil import Canon, helper_closure
     ci = repo.cls(PO, "Polytope")
     fi = ci.methods.get("_end_of_divison")
     if fi is None:
@@ -70,70 +83,130 @@ def index_assignment(ctx, repo: Repo, pid: str, store):
     ctx.analysed(fi)
     where = fi.where
     ctx.instance("OWN", 4)
-    if store is None or not isinstance(store, ast.Assign):
+    if store is None:
         ctx.inconclusive("OWN", f"{pid}.index.value", "index store not recognised", where)
         return
-    # value = self.current_max_ci + i
-    v = store.value
+    view, store = store
+    # names assigned once in the (spliced) method, protected: loop variables
     loop = getattr(store, "_parent", None)
     while loop is not None and not isinstance(loop, ast.For):
         loop = getattr(loop, "_parent", None)
-    ok_val = False
+    loop_vars = {x.id for x in ast.walk(loop.target) if isinstance(x, ast.Name)} if loop is not None else set()
+    cn = Canon(Canon.single_defs(view.body, exclude=loop_vars))
+    MAXCI = "self.current_max_ci"
+    v = store.value
     lst = None
+    verdict = None        # True ok / False wrong / None unknown
+    key_ok = False
     if loop is not None and isinstance(loop.iter, ast.Call) and isinstance(loop.iter.func, ast.Name) and loop.iter.func.id == "enumerate" and \
-            isinstance(loop.target, ast.Tuple) and isinstance(loop.target.elts[0], ast.Name):
+            isinstance(loop.target, ast.Tuple) and len(loop.target.elts) == 2 and isinstance(loop.target.elts[0], ast.Name) and loop.iter.args:
         ivar = loop.target.elts[0].id
         nvar = loop.target.elts[1].id if isinstance(loop.target.elts[1], ast.Name) else None
         lst = loop.iter.args[0]
-        if isinstance(v, ast.BinOp) and isinstance(v.op, ast.Add):
-            parts = [v.left, v.right]
-            ok_val = any(_is_self_attr(p, "current_max_ci") for p in parts) and any(isinstance(p, ast.Name) and p.id == ivar for p in parts)
-        # the node that receives the index is the enumerated node
+        start = {k.arg: k.value for k in loop.iter.keywords}.get("start", loop.iter.args[1] if len(loop.iter.args) > 1 else None)
         key_ok = nvar is not None and nvar in {x.id for x in ast.walk(store.targets[0]) if isinstance(x, ast.Name)}
-    else:
-        key_ok = False
-    if ok_val and key_ok:
+        uses_i = ivar in {x.id for x in ast.walk(v) if isinstance(x, ast.Name)}
+        # the stored value as a polynomial in the position i, the running maximum M and the number of new nodes n
+        from .alg import Poly
+        I_, M_, N_ = Poly.sym("i"), Poly.sym("M"), Poly.sym("n")
+        ltxt0 = src(lst)
+
+        def lin(e):
+            e = cn.expand(e)
+            if isinstance(e, ast.Constant) and isinstance(e.value, int) and not isinstance(e.value, bool):
+                return Poly.const(e.value)
+            if isinstance(e, ast.Name):
+                return I_ if e.id == ivar else None
+            if _is_self_attr(e, "current_max_ci"):
+                return M_
+            if isinstance(e, ast.Call) and isinstance(e.func, ast.Name) and e.func.id == "len" and e.args and \
+                    src(e.args[0]) in (ltxt0, cn.text(lst)):
+                return N_
+            if isinstance(e, ast.BinOp) and isinstance(e.op, (ast.Add, ast.Sub, ast.Mult)):
+                a_, b_ = lin(e.left), lin(e.right)
+                if a_ is None or b_ is None:
+                    return None
+                return a_ + b_ if isinstance(e.op, ast.Add) else (a_ - b_ if isinstance(e.op, ast.Sub) else a_ * b_)
+            if isinstance(e, ast.UnaryOp) and isinstance(e.op, ast.USub):
+                a_ = lin(e.operand)
+                return None if a_ is None else Poly.const(0) - a_
+            return None
+        pv = lin(v)
+        if start is not None:
+            # enumerate(L, start=S): the loop counter already carries the offset S
+            ps = lin(start)
+            pv = None if (pv is None or ps is None) else pv - I_ + (ps + I_)
+        if not uses_i:
+            verdict = False
+        elif pv is not None:
+            verdict = (pv == M_ + I_)
+    if verdict is True and key_ok:
         ctx.ok("OWN", f"{pid}.index.value", "the i-th new node of a level receives index current_max_ci + i (all indices of a level lie above "
                "every earlier level's)", where, norm_stmt(store))
-    elif loop is None or lst is None:
-        ctx.inconclusive("OWN", f"{pid}.index.value", "index assignment loop not recognised", where, norm_stmt(store))
-    else:
+    elif verdict is False or (verdict is True and not key_ok):
         ctx.violate("OWN", f"{pid}.index.value", "new nodes do not receive current_max_ci + position: level ordering of the permanent "
-                    "indices is lost", where, norm_stmt(store), witness=f"value {src(v)}")
+                    "indices is lost", where, norm_stmt(store), witness=f"value {src(v)}; key is the enumerated node: {key_ok}")
+    else:
+        ctx.inconclusive("OWN", f"{pid}.index.value", "index assignment loop not recognised", where, norm_stmt(store))
     # the enumerated list: nodes of the current level only
-    if lst is not None and isinstance(lst, ast.Name):
-        defs = [a for a in ast.walk(fi.node) if isinstance(a, ast.Assign) and isinstance(a.targets[0], ast.Name) and a.targets[0].id == lst.id]
-        sel_ok = False
-        if defs and isinstance(defs[0].value, ast.ListComp):
-            comp = defs[0].value
-            conds = [c for g in comp.generators for c in g.ifs]
-            sel_ok = any(isinstance(c, ast.Compare) and len(c.ops) == 1 and isinstance(c.ops[0], ast.Eq) and
-                         any(_is_self_attr(x, "current_level") for x in [c.left] + c.comparators) for c in conds) and \
-                "level" in src(comp.generators[0].iter)
-        if sel_ok:
-            ctx.ok("OWN", f"{pid}.index.level", "only the nodes created at the current level receive an index (existing indices are never "
-                   "rewritten)", where, norm_stmt(defs[0])[:160])
-        elif defs:
-            ctx.violate("OWN", f"{pid}.index.level", "indices are (re)assigned to nodes that are not restricted to the current level: "
-                        "earlier indices change on subdivision", where, norm_stmt(defs[0])[:200], witness="selection is not `level == self.current_level`")
+    if lst is not None:
+        le = cn.expand(lst)
+        comp = le if isinstance(le, ast.ListComp) else None
+        if comp is not None:
+            conds = [cn.expand(c) for g in comp.generators for c in g.ifs]
+            on_level = "level" in src(comp.generators[0].iter)
+            eq_cur = any(isinstance(c, ast.Compare) and len(c.ops) == 1 and isinstance(c.ops[0], ast.Eq) and
+                         any(_is_self_attr(x, "current_level") for x in [c.left] + c.comparators) for c in conds)
+            other_cmp = any(isinstance(c, ast.Compare) and not (len(c.ops) == 1 and isinstance(c.ops[0], ast.Eq)) and
+                            any(_is_self_attr(x, "current_level") for x in ast.walk(c)) for c in conds)
+            if on_level and eq_cur and not other_cmp:
+                ctx.ok("OWN", f"{pid}.index.level", "only the nodes created at the current level receive an index (existing indices are never "
+                       "rewritten)", where, src(comp)[:160])
+            elif on_level and (other_cmp or not conds):
+                ctx.violate("OWN", f"{pid}.index.level", "indices are (re)assigned to nodes that are not restricted to the current level: "
+                            "earlier indices change on subdivision", where, src(comp)[:200], witness="selection is not `level == self.current_level`")
+            else:
+                ctx.inconclusive("OWN", f"{pid}.index.level", "selection of new nodes not recognised", where, witness=src(comp)[:160])
         else:
-            ctx.inconclusive("OWN", f"{pid}.index.level", "selection of new nodes not recognised", where)
+            ctx.inconclusive("OWN", f"{pid}.index.level", "selection of new nodes not recognised", where, witness=src(le)[:160])
         # running maximum grows by the number of new nodes, afterwards
-        incs = [a for a in ast.walk(fi.node) if isinstance(a, ast.AugAssign) and _is_self_attr(a.target, "current_max_ci")]
-        ok_inc = len(incs) == 1 and isinstance(incs[0].op, ast.Add) and src(incs[0].value) == f"len({lst.id})" and incs[0].lineno > store.lineno
-        if ok_inc:
-            ctx.ok("OWN", f"{pid}.index.max", "the running maximum grows by the number of new nodes after the assignment", where, norm_stmt(incs[0]))
+        ltxt = src(lst)
+        upd = [a for a in ast.walk(view) if isinstance(a, (ast.Assign, ast.AugAssign)) and
+               any(_is_self_attr(t, "current_max_ci") for t in (a.targets if isinstance(a, ast.Assign) else [a.target]))]
+        after = [a for a in upd if a.lineno >= store.lineno and a is not store]
+        good_upd = None
+        if len(upd) == 1 and after:
+            a0 = upd[0]
+            if isinstance(a0, ast.AugAssign) and isinstance(a0.op, ast.Add):
+                pu = lin(a0.value)
+                good_upd = None if pu is None else (pu == N_)
+            elif isinstance(a0, ast.Assign):
+                pu = lin(a0.value)
+                good_upd = None if pu is None else (pu == M_ + N_)
+        if good_upd:
+            ctx.ok("OWN", f"{pid}.index.max", "the running maximum grows by the number of new nodes after the assignment", where, norm_stmt(upd[0]))
+        elif good_upd is False or len(upd) != 1 or not after:
+            ctx.violate("OWN", f"{pid}.index.max", "the running maximum index is not advanced by exactly the number of new nodes after the "
+                        "assignment: indices collide or leave gaps", where, norm_stmt(upd[0]) if upd else "self.current_max_ci += len(new_nodes)",
+                        witness=f"{len(upd)} update(s): {[norm_stmt(x) for x in upd]}")
         else:
-            ctx.violate("OWN", f"{pid}.index.max", "the running maximum index is not advanced by exactly the number of new nodes: indices "
-                        "collide or leave gaps", where, norm_stmt(incs[0]) if incs else "self.current_max_ci += len(new_nodes)",
-                        witness=f"{len(incs)} update(s): {[norm_stmt(x) for x in incs]}")
-    lev = [a for a in ast.walk(fi.node) if isinstance(a, ast.AugAssign) and _is_self_attr(a.target, "current_level")]
-    ok_lev = len(lev) == 1 and isinstance(lev[0].op, ast.Add) and isinstance(lev[0].value, ast.Constant) and lev[0].value.value == 1 and \
-        lev[0].lineno > store.lineno
-    ctx.check(ok_lev, "OWN", f"{pid}.index.levelstep", "the level counter advances by one after the indices of the level are assigned", where,
-              norm_stmt(lev[0]) if lev else "", witness=str([norm_stmt(x) for x in lev]))
+            ctx.inconclusive("OWN", f"{pid}.index.max", "update of the running maximum not recognised", where, norm_stmt(upd[0]))
+    lev = [a for a in ast.walk(view) if isinstance(a, ast.AugAssign) and _is_self_attr(a.target, "current_level")]
+    ok_lev = len(lev) == 1 and isinstance(lev[0].op, ast.Add) and isinstance(lev[0].value, ast.Constant) and lev[0].value.value == 1
+    lev_assign = [a for a in ast.walk(view) if isinstance(a, ast.Assign) and any(_is_self_attr(t, "current_level") for t in a.targets)]
+    if ok_lev:
+        ctx.ok("OWN", f"{pid}.index.levelstep", "the level counter advances by one after the indices of the level are assigned", where, norm_stmt(lev[0]))
+    elif lev_assign and all(src(a.value).replace(" ", "") in ("self.current_level+1", "1+self.current_level") for a in lev_assign):
+        ctx.ok("OWN", f"{pid}.index.levelstep", "the level counter advances by one", where, norm_stmt(lev_assign[0]))
+    elif not lev and not lev_assign:
+        ctx.violate("OWN", f"{pid}.index.levelstep", "the level counter is not advanced at the end of a division: the next level's nodes are "
+                    "tagged with the old level and re-indexed", where, witness="no update of self.current_level")
+    else:
+        ctx.violate("OWN", f"{pid}.index.levelstep", "the level counter does not advance by exactly one", where,
+                    witness=str([norm_stmt(x) for x in lev + lev_assign]))
     # other writers of current_max_ci / current_level
     m = repo.module(PO)
+    allowed = {f"Polytope.{x}" for x in helper_closure(ci, {"_end_of_divison"})} | {"Polytope.__init__"}
     others = []
     for n in ast.walk(m.tree):
         if isinstance(n, (ast.Assign, ast.AugAssign)):
@@ -141,10 +214,10 @@ def index_assignment(ctx, repo: Repo, pid: str, store):
             for t in tgts:
                 if _is_self_attr(t) and t.attr in ("current_max_ci", "current_level"):
                     fn = _func_of(m, n)
-                    if fn not in ("Polytope._end_of_divison", "Polytope.__init__"):
+                    if fn not in allowed:
                         others.append((n, fn))
     ctx.check(not others, "OWN", f"{pid}.index.counters", "the level counter and the running maximum are written only by __init__ and "
-              "_end_of_divison", where, norm_stmt(others[0][0]) if others else "", witness=str([o[1] for o in others]))
+              "on the path of _end_of_divison", where, norm_stmt(others[0][0]) if others else "", witness=str([o[1] for o in others]))
 
 
 def node_adding(ctx, repo: Repo, pid: str):
